@@ -17,6 +17,9 @@ CHECKS = {
     "C01": {"units": [rapid("csyncx", "TestC01", 10000, 100000)]},
     "C02": {"units": [rapid("csyncx", "TestC02", 10000, 100000)]},
     "C03": {"units": [rapid("bcastx", "TestC03", 10000, 100000)]},
+    "C04": {"units": [rapid("routinex", "TestC04", 10000, 60000)]},
+    "C05": {"units": [rapid("routinex", "TestC05", 8000, 60000)]},
+    "C14": {"units": [rapid("routinex", "TestC14", 10000, 60000)]},
     "C11": {"units": [rapid("promisex", "TestC11", 10000, 80000)]},
     "C15": {"units": [rapid("ccontx", "TestC15", 10000, 80000)]},
     "C16": {"units": [rapid("promisex", "TestC16", 10000, 80000)]},
